@@ -124,9 +124,9 @@ _JS_WHITESPACE = (
     "\u2008\u2009\u200a\u2028\u2029\u202f\u205f\u3000\ufeff"
 )
 # StrDecimalLiteral (ASCII digits only, no digit separators, "Infinity" spelled out)
-_DECIMAL_LITERAL = re.compile(
-    r"[+-]?(?:Infinity|(?:[0-9]+\.?[0-9]*|\.[0-9]+)(?:[eE][+-]?[0-9]+)?)\Z"
-)
+_DECIMAL = r"[+-]?(?:Infinity|(?:[0-9]+\.?[0-9]*|\.[0-9]+)(?:[eE][+-]?[0-9]+)?)"
+_DECIMAL_LITERAL = re.compile(_DECIMAL + r"\Z")
+_DECIMAL_PREFIX = re.compile(_DECIMAL)
 _RADIX_LITERAL = re.compile(r"0(?:[xX][0-9a-fA-F]+|[oO][0-7]+|[bB][01]+)\Z")
 
 
@@ -157,6 +157,17 @@ def to_number(value: JSValue) -> Union[int, float]:
         return decimal_integer(s)
     # TODO: Handle objects with valueOf
     return float("nan")
+
+
+def parse_float(text: str) -> float:
+    """parseFloat: the longest prefix of the text, after leading white space,
+    that is a decimal literal, or NaN when there is none.
+
+    What follows the literal is ignored, so "1e" and "1.5e+" are 1 and 1.5:
+    an exponent without digits is not part of the prefix.
+    """
+    m = _DECIMAL_PREFIX.match(text.lstrip(_JS_WHITESPACE))
+    return float(m.group()) if m else float("nan")
 
 
 def decimal_integer(digits: str) -> Union[int, float]:
